@@ -23,6 +23,7 @@ package tls
 //@ func (*Conn).decryptTicket
 //@   requires c != nil
 //@   loop 1 invariant 0 <= it && forall(i, 0, it, !old(tkMatch(c, i, encrypted)), old(&c.ticketKeys[i]))
+//@   loop 1 invariant it > 0 ==> !old(tkMatch(c, 0, encrypted))
 //@   at call hmac.New assert 0 <= keyIndex && keyIndex < len(c.ticketKeys) && tkMatch(c, keyIndex, encrypted) && forall(i, 0, keyIndex, !tkMatch(c, i, encrypted), &c.ticketKeys[i]) && len(arg1) == 16 && &arg1[0] == &(&c.ticketKeys[keyIndex].hmacKey)[0]
 //@   at call Write assert same(arg0, mac) && samedata(arg1, encrypted[:len(encrypted)-32])
 //@   at call Sum assert same(arg0, mac) && arg1 == nil
@@ -32,7 +33,14 @@ package tls
 //@   at call XORKeyStream assert eq(macBytes, expected) && same(arg1, plaintext) && same(arg2, encrypted[32:len(encrypted)-32])
 //@   ensures  [short] len(encrypted) < 64 ==> plaintext == nil
 //@   ensures  [nokey] forall(i, 0, old(len(c.ticketKeys)), !old(tkMatch(c, i, encrypted)), old(&c.ticketKeys[i])) ==> plaintext == nil
-//@   ensures  [key] plaintext != nil ==> !forall(k, 0, old(len(c.ticketKeys)), !(old(tkFirst(c, k, encrypted)) && usedOldKey == (k > 0)), old(&c.ticketKeys[k]))
+// usedOldKey == (index of the first matching key > 0), without an existential: a ticket opened
+// under "the new key" matches key 0; one opened under "an old key" does not match key 0 (and by
+// [nokey] some key matches). Equivalent to `plaintext != nil ==> exists k: tkFirst(c,k,encrypted) &&
+// usedOldKey == (k > 0)`, which z3 stopped proving (witness k = keyIndex must be found by
+// E-matching through `bvadd (s_off s) k`, notes tlslog.md L4). That the key actually USED is the
+// first matching one is the assertion at the call of hmac.New above.
+//@   ensures  [keynew] plaintext != nil && !usedOldKey ==> old(len(c.ticketKeys)) > 0 && old(tkMatch(c, 0, encrypted))
+//@   ensures  [keyold] plaintext != nil && usedOldKey ==> old(len(c.ticketKeys)) > 1 && !old(tkMatch(c, 0, encrypted))
 //@   ensures  [fail] plaintext == nil ==> !usedOldKey
 //@   ensures  [len] plaintext != nil ==> len(plaintext) == len(encrypted) - 64 && fresh(plaintext)
 //@   modifies nothing
